@@ -241,6 +241,8 @@ func buildType(t *tdesc) reflect.Type {
 		return anyType
 	case "chan":
 		return reflect.TypeOf(make(chan int))
+	case "leaf16":
+		return reflect.TypeOf(c16Leaf(0))
 	case "slice":
 		return reflect.SliceOf(buildType(t.Elem))
 	case "array":
@@ -498,6 +500,26 @@ func genJSONFor(r *rand.Rand, t *tdesc, sb *strings.Builder, depth int) {
 	case "time":
 		sb.WriteString([]string{`"2000-01-01T00:00:00Z"`, `"1999-12-31T23:59:59.5+01:00"`}[r.IntN(2)])
 	case "duration":
+		if r.IntN(2) == 0 { // ISO 8601: designators in either case, either separator, a sign, now and then out of order
+			parts := []string{}
+			for i, d := range []string{"H", "M", "S"} {
+				if r.IntN(2) == 0 {
+					n := strconv.Itoa(r.IntN(100))
+					if i == 2 && r.IntN(2) == 0 {
+						n += []string{".", ","}[r.IntN(2)] + strconv.Itoa(r.IntN(1000000))
+					}
+					if r.IntN(8) == 0 {
+						d = strings.ToLower(d)
+					}
+					parts = append(parts, n+d)
+				}
+			}
+			if r.IntN(12) == 0 && len(parts) > 1 {
+				parts[0], parts[1] = parts[1], parts[0]
+			}
+			sb.WriteString(`"` + []string{"", "", "", "-", "+"}[r.IntN(5)] + "PT" + strings.Join(parts, "") + `"`)
+			return
+		}
 		sb.WriteString([]string{`"1h2m3s"`, `"0s"`, `"-1.5ms"`}[r.IntN(3)])
 	case "chan":
 		sb.WriteString("1")
